@@ -20,14 +20,16 @@ Match(s, r) ==
 
 MatchErr(se, re) ==     \* re: the recorded error record, or [k |-> "none"]
   CASE se.k = "none" -> re.k = "none"
-    [] se.k = "err" -> re.k = "err" /\ (IF re.v.t = "opaque" THEN se.v.t = "opaque" ELSE Match(se.v, re.v))
+    [] se.k = "err" -> re.k = "err" /\ (IF re.v.t = "opaque"
+                                        THEN se.v.t = "opaque" \/ (se.v.t = "str" /\ "msgc" \in DOMAIN re /\ se.v.s = re.msgc)     \* a message error whose text the model spells
+                                        ELSE Match(se.v, re.v))
     [] se.k = "halt" -> re.k = "halt" /\ Match(se.v, re.v) /\ se.c = re.c
     [] OTHER -> FALSE
 
 RunVerdict(ast, run) ==
   IF "panic" \in DOMAIN run /\ run.panic # "" THEN [v |-> "panic"]
   ELSE IF "long" \in DOMAIN run /\ run.long THEN [v |-> "long"]
-  ELSE LET r == Eval(ast, run.in, <<>>, <<>>)
+  ELSE LET r == Eval(ast, run.in, <<>>, IF "inputs" \in DOMAIN run THEN run.inputs ELSE <<>>)
            re == IF "err" \in DOMAIN run THEN run.err ELSE [k |-> "none"]
        IN IF r.e.k = "oom" THEN [v |-> "oom"]
           ELSE IF Len(r.o) = Len(run.out) /\ (\A i \in 1..Len(r.o) : Match(r.o[i], run.out[i])) /\ MatchErr(r.e, re)
